@@ -101,14 +101,53 @@ class Passes:
         self.fn = fn
         fors = find_all(fn, ast.For, nested=False)
         self.level_loop = next((l for l in fors if norm(l.iter).replace(' ', '') == 'enumerate(self.ops)'), None)
-        self.alloc_level_loop = next((l for l in fors if norm(l.iter).replace(' ', '') == 'zip(self.level_starts,self.level_stops)'), None)
+        # the per-level allocation pass: an outer loop whose body holds a loop over a slice of self.ops (whatever the
+        # spelling of the level bounds: which ops each iteration covers is *evaluated* by level_partition())
+        self.alloc_level_loop = self.alloc_op_loop = None
+        for l in fors:
+            if l is self.level_loop:
+                continue
+            inner = [x for x in l.body if isinstance(x, ast.For) and isinstance(x.iter, ast.Subscript)
+                     and norm(x.iter.value).replace(' ', '') == 'self.ops' and isinstance(x.iter.slice, ast.Slice)]
+            if len(inner) == 1 and ('level_st' in norm(l.iter) or any('level_st' in norm(n) for n in ast.walk(inner[0].iter))):
+                self.alloc_level_loop, self.alloc_op_loop = l, inner[0]
+                break
         if self.level_loop is None or self.alloc_level_loop is None:
             raise AnchorError('SimOps.__init__: levelisation / allocation loops not found')
-        inner = [l for l in self.alloc_level_loop.body if isinstance(l, ast.For)]
-        self.alloc_op_loop = next((l for l in inner if norm(l.iter).replace(' ', '') == 'self.ops[op_start:op_stop]'), None)
-        if self.alloc_op_loop is None:
-            raise AnchorError('SimOps.__init__: per-op allocation loop `for op in self.ops[op_start:op_stop]` not found')
         self.snode_loops = [l for l in fors if norm(l.iter).replace(' ', '') == 'enumerate(circuit.s_nodes)']
+
+    def level_partition(self):
+        """[(ops covered per outer iteration, expected)] for representative level tables, by evaluating the loop headers
+        (and the plain-name bookkeeping assignments around them) in Engine M."""
+        from . import minieval
+        blk = getattr(self.alloc_level_loop, '_parent', self.fn)
+        sibs = blk.body if self.alloc_level_loop in getattr(blk, 'body', []) else getattr(blk, 'orelse', [])
+        out = []
+        for starts, stops in (([0, 3, 4, 8], [3, 4, 8, 9]), ([0, 1], [1, 2]), ([0], [5])):
+            n = stops[-1]
+            env = {'self': minieval.NS(level_starts=starts, level_stops=stops, ops=list(range(n))), 'len': len}
+            for st in sibs[:sibs.index(self.alloc_level_loop)]:
+                if isinstance(st, ast.Assign) and len(st.targets) == 1 and isinstance(st.targets[0], ast.Name):
+                    try:
+                        minieval.run([st], env)
+                    except Exception:  # noqa: BLE001 - unrelated statement
+                        pass
+            got = []
+            try:
+                for item in minieval.ev(self.alloc_level_loop.iter, env):
+                    minieval.bind(self.alloc_level_loop.target, item, env)
+                    for st in self.alloc_level_loop.body:
+                        if st is self.alloc_op_loop:
+                            got.append(list(minieval.ev(st.iter, env)))
+                        elif isinstance(st, (ast.Assign, ast.AugAssign)) and all(isinstance(t, ast.Name) for t in (st.targets if isinstance(st, ast.Assign) else [st.target])):
+                            try:
+                                minieval.run([st], env)
+                            except Exception:  # noqa: BLE001
+                                pass
+            except (IndexError, KeyError, TypeError) as e:
+                got = f'{type(e).__name__}: {e}'
+            out.append((starts, stops, got, [list(range(a, b)) for a, b in zip(starts, stops)]))
+        return out
 
     @staticmethod
     def operand_names(loop):
